@@ -86,7 +86,8 @@ def normalise(raw):
             out.append({"e": "arith", "op": e["op"], "l": _norm_q(e["l"]), "rt": rt, "r": rq, "n": e["n"] if (e.get("n") is not None and abs(e["n"]) <= 12) else 0,
                         "out": e["out"], "hr": e.get("res") is not None, "res": _norm_q(e.get("res")), "id": n})
         elif k == "cmp":
-            out.append({"e": "cmp", "op": e["op"], "l": _norm_q(e["l"]), "r": _norm_q(e["r"]), "out": e["out"] or "none", "id": n})
+            out.append({"e": "cmp", "op": e["op"], "l": _norm_q(e["l"]), "r": _norm_q(e["r"]), "out": e["out"] or "none",
+                        "rev": e.get("rev") or "none", "hq": e.get("hq") or "NA", "id": n})
     if _HUGE[0] and out:
         out.pop()
     _HUGE[0] = False
@@ -152,8 +153,8 @@ def _describe(raw, test):
         return "%s: [%s %s] with [%s] n=%s -> %s %s%s" % (e["op"], e["l"]["mk"], e["l"]["u"]["k"], rk, e.get("n"), e["out"],
                                                          (e.get("res") or {}).get("u", {}).get("k"), test)
     if k == "cmp":
-        return "%s: [sg %s lm %s %s] vs [sg %s lm %s %s] -> %s%s" % (e["op"], e["l"]["sg"], e["l"]["lm"], e["l"]["u"]["k"], e["r"]["sg"], e["r"]["lm"],
-                                                                   e["r"]["u"]["k"], e["out"], test)
+        return "%s: [sg %s lm %s %s] vs [sg %s lm %s %s] -> %s (the other way round: %s; hashes equal: %s)%s" % (
+            e["op"], e["l"]["sg"], e["l"]["lm"], e["l"]["u"]["k"], e["r"]["sg"], e["r"]["lm"], e["r"]["u"]["k"], e["out"], e.get("rev"), e.get("hq"), test)
     return json.dumps(e)[:200]
 
 
